@@ -405,7 +405,7 @@ B("T6.string_and_cell_buffer", ["C04", "C17"], CB, "bounded_string_and_cell_buff
   "cells = the non-blank characters at the column where their display columns start (wide = 2 columns); LF/CRLF, trailing blanks and blank lines add nothing",
   "first row: all strings of <= 4 (thorough 5) tokens over {a, e-acute, wide CJK, space, -, TAB} x 3 second rows x {LF, CRLF} x 4 trailing-blank variants")
 
-K("C15.celltext_fragment_dispatch", ["C15", "C03", "C04"], FRAG, "check_fragment_celltext_dispatch",
+K("C15.celltext_fragment_dispatch", ["C15", "C03", "C04", "C11"], FRAG, "check_fragment_celltext_dispatch",
   "Fragment::scale / absolute_position / merge / is_contacting / is_broken on a CellText fragment",
   "a text fragment never becomes or joins geometry: scale gives a Text with the same content anchored at q*s; absolute_position moves the cell; "
   "merge with a line, circle, arc or rect is None in both orders; it contacts no geometric fragment",
